@@ -73,6 +73,15 @@ Theorem C18_date_ymd : forall sy sm sd,
     then VTup [VInt (dval sy 0); VInt (dval sm 0); VInt (dval sd 0)] else VNone.
 Proof. exact date_ymd. Qed.
 
+(* ... optionally followed by a space or a T and anything (a time part): only the date part counts *)
+Theorem C18_date_ymd_time : forall sy sm sd sep rest,
+  all_digits sy -> all_digits sm -> all_digits sd ->
+  List.length sy = 4%nat -> (1 <= List.length sm <= 2)%nat -> (1 <= List.length sd <= 2)%nat ->
+  sep = 32%N \/ sep = 84%N ->
+  cast TString TDate (VStr ((sy ++ 45%N :: sm ++ 45%N :: sd) ++ sep :: rest)) =
+  cast TString TDate (VStr (sy ++ 45%N :: sm ++ 45%N :: sd)).
+Proof. exact date_ymd_time. Qed.
+
 (* non-vacuity / sanity on the doctest-style inputs *)
 Example wrap_examples :
   cast TInt TByte (VInt 128) = VInt (-128) /\ cast TInt TByte (VInt (-129)) = VInt 127 /\
